@@ -21,7 +21,7 @@ def state_from_model(m):
             n = int(k)
         except ValueError:
             continue
-        if not isinstance(nd, dict) or not 0 <= n <= 255:
+        if not isinstance(nd, dict) or not 0 <= n <= 255 or nd.get("node_id") != n:
             continue
         children = {}
         for ck, ch in _dict(nd.get("children")).items():
@@ -29,7 +29,7 @@ def state_from_model(m):
                 c = int(ck)
             except ValueError:
                 continue
-            if isinstance(ch, dict) and 0 <= c <= 255:
+            if isinstance(ch, dict) and 0 <= c <= 255 and ch.get("child_id") == c:
                 vals = {}
                 for tk, tv in _dict(ch.get("values")).items():
                     try:
@@ -124,6 +124,8 @@ def search(prop, versions, seed=0, budget=300):
             for _ in range(budget // max(1, len(versions))):
                 steps = []
                 for _ in range(rng.randint(1, 7)):
+                    if prop in ("C08", "C10", "C11", "C06") and rng.random() < 0.12:
+                        steps.append(("fail",))
                     if rng.random() < 0.2:
                         n_ = rng.choice((0, 1, 2))
                         msg = rng.choice([(n_, 1, 1, 0, 2, "1"), (n_, 1, 1, 0, 0, "20"), (n_, 255, 3, 0, 13, ""), (n_, 255, 3, 0, 19, ""),
